@@ -1,7 +1,7 @@
 (* Extract/Driver.v — dispatch : sexp -> sexp, the single entry point of the extracted model *)
 From Coq Require Import List Bool Ascii String ZArith.
 From FM Require Import Base.Result Base.Str Base.Sexp Base.AstOp Model.Ast Model.FM Model.Ctc
-     Model.Queries Model.Sem Model.Ops Model.EqHash Model.PFM Format.Json Format.Glencoe Format.Xml Format.Uvl Format.Afm Format.Export Model.Metrics Model.GenRandom Extract.Codec.
+     Model.Queries Model.Sem Model.Ops Model.EqHash Model.PFM Model.Heap Format.Json Format.Glencoe Format.Xml Format.Uvl Format.Afm Format.Export Model.Metrics Model.GenRandom Extract.Codec.
 Import ListNotations.
 Open Scope string_scope.
 
@@ -314,6 +314,15 @@ Definition dispatch (req : sexp) : sexp :=
             match dom', d_bool ol, omap d_draw draws, d_fm m with
             | Some dm, Some b, Some dr, Some m' => e_result e_fm (gen_random_attribute nm dm b dr m')
             | _, _, _, _ => bad "genrandom args"
+            end
+        | _ => bad "arity"
+        end
+      else if String.eqb op "heap_run" then
+        match args with
+        | [SList ops] =>
+            match omap d_hop ops with
+            | Some ops' => e_tag "heap" [e_bool (guards [] ops'); e_heap (run [] ops')]
+            | None => bad "hop"
             end
         | _ => bad "arity"
         end
